@@ -17,6 +17,8 @@ SCRIPTS = {
     "sequence": 'echo "S $NAME" >> "$J"\nsleep 30\necho after',
     "background": 'echo "S $NAME" >> "$J"\n(sleep 31; echo child-done) &\nwait',
     "pipeline": 'echo "S $NAME" >> "$J"\nsleep 30 | cat',
+    # the shell exits at once, its background child keeps the output pipes open (the task is still running)
+    "orphaning": 'echo "S $NAME" >> "$J"\nsleep 30 &\nexit 0',
     "bigoutput": 'echo "S $NAME" >> "$J"\nhead -c 1048576 /dev/zero | tr "\\0" "x"\nhead -c 1048576 /dev/zero | tr "\\0" "y" >&2\nsleep 30',
 }
 
@@ -53,6 +55,8 @@ async def _run(scn, wd, marker):
     if how in ("exit0", "exit1"):
         # ends by itself: replace the long sleeps
         body = body.replace("sleep 30", "sleep 0.2").replace("sleep 31", "sleep 0.2").replace("exec sleep 0.2", "sleep 0.2")
+        if kind == "orphaning":
+            body = body.replace("\nexit 0", "")
         body += '\necho "E $NAME" >> "$J"\nexit %d' % (0 if how == "exit0" else 1)
     n = scn["cores"] + 1
     tids = []
